@@ -7,7 +7,8 @@ PROPERTIES = {
         claim="proof part: get_expr_name / get_invalid_target total over the grammar-derived universe of expression classes; _build_syntax_error and "
         "check_fstring_conversion never fail with an internal exception; the generated "
         "scenic_temporal_group recogniser accepts a group before every token of FOLLOW(scenic_temporal_inversion); the translator restores the "
-        "veneer activity on every exit; visitor census of the compiler; makeSyntaxError. Totality of the generated parser on all texts is NOT proved "
+        "veneer activity on every exit; visitor census of the compiler; makeSyntaxError; every operand (field declared ast.AST) of a *Specifier node and of a statement-level node "
+        "(require / terminate when / record / param / mutate / simulator / override / wait / do-until / interrupt when / precondition / invariant) is fed by the grammar rule the reference prescribes and a mandatory operand is never absent. Totality of the generated parser on all texts is NOT proved "
         "(bounded stand-in).",
         note="parser-resident carriers are extracted from a parser regenerated from the current scenic.gram",
         assumptions=[
